@@ -153,6 +153,15 @@ func vBuildWorld(shareKind int) (shareDeleted bool) {
 	return vrt.Choice(2) == 1
 }
 
+// how the share got deleted: once, or twice with the newer deletion itself deleted (still deleted)
+func vDeleteHistory() *index.Index {
+	if vrt.Choice(2) == 0 {
+		return index.VerifIndexWithDeletes([]blob.Ref{vRef(0)}, []blob.Ref{blob.VerifSmallRef(99)}, []time.Time{time.Unix(10, 0)})
+	}
+	d1, d2, d3 := blob.VerifSmallRef(97), blob.VerifSmallRef(98), blob.VerifSmallRef(99)
+	return index.VerifIndexWithDeletes([]blob.Ref{vRef(0), vRef(0), d2}, []blob.Ref{d1, d2, d3}, []time.Time{time.Unix(10, 0), time.Unix(20, 0), time.Unix(30, 0)})
+}
+
 // reference: may the chain be served?
 func vAllowed(chain []blob.Ref, shareDeleted bool) bool {
 	first := vFind(chain[0])
@@ -197,7 +206,7 @@ func vShareChain(shareKind int) {
 	shareDeleted := vBuildWorld(shareKind)
 	var idx *index.Index
 	if shareDeleted {
-		idx = index.VerifIndexWithDeletes([]blob.Ref{vRef(0)}, []blob.Ref{blob.VerifSmallRef(99)}, []time.Time{time.Unix(10, 0)})
+		idx = vDeleteHistory()
 	} else {
 		idx = index.VerifIndexWithDeletes(nil, nil, nil)
 	}
